@@ -70,19 +70,24 @@ Proof. exact (iter_mul_l k g v). Qed.
    restored scheduler continues the trajectory).  It is FALSE of the code: the live scheduled value is
    kept on the optimizer and is in neither state_dict (Findings/C17.v : C17_restore_refuted; recorded in
    KNOWN_FINDINGS.json).  Proved part: exact restore when the fresh optimizer carries the same live
-   value, and for Lambda schedules exact agreement from the next scheduler step on. *)
+   value, and for Lambda schedules exact agreement from the next scheduler step on.  The schedule function of a Lambda scheduler is NOT
+   part of the saved state (a plain function cannot be pickled; same convention as torch's LambdaLR): the scheduler the state is loaded into
+   keeps its own, hence the hypothesis `f_lam s' = f_lam s` -- the fresh scheduler is built with the same function. *)
 Theorem C17_restore_exact_partial {T} {N : Num T} (s s' : ss T) :
-  f_oval s' = f_oval s -> noise_load_state_dict s' (noise_state_dict s) = s.
+  f_oval s' = f_oval s -> f_lam s' = f_lam s -> noise_load_state_dict s' (noise_state_dict s) = s.
 Proof. exact (noise_restore_exact_partial s s'). Qed.
 Theorem C17_clip_restore_exact_partial {T} {N : Num T} (s s' : ss T) :
-  f_oval s' = f_oval s -> clip_load_state_dict s' (clip_state_dict s) = s.
+  f_oval s' = f_oval s -> f_lam s' = f_lam s -> clip_load_state_dict s' (clip_state_dict s) = s.
 Proof. exact (clip_restore_exact_partial s s'). Qed.
-Theorem C17_lambda_restore_next {T} {N : Num T} (s s' : ss T) :
+Theorem C17_lambda_restore_next {T} {N : Num T} (s s' : ss T) : f_lam s' = f_lam s ->
   noise_step noise_lambda_get (noise_load_state_dict s' (noise_state_dict s)) = noise_step noise_lambda_get s.
 Proof. exact (noise_lambda_restore_next s s'). Qed.
-Theorem C17_clip_lambda_restore_next {T} {N : Num T} (s s' : ss T) :
+Theorem C17_clip_lambda_restore_next {T} {N : Num T} (s s' : ss T) : f_lam s' = f_lam s ->
   clip_step clip_lambda_get (clip_load_state_dict s' (clip_state_dict s)) = clip_step clip_lambda_get s.
 Proof. exact (clip_lambda_restore_next s s'). Qed.
+(* the saved state holds no function, whatever the schedule: it can always be written to a checkpoint *)
+Theorem C17_state_dict_holds_no_function {T} {N : Num T} (s : ss T) : sd_lam (noise_state_dict s) = None /\ sd_lam (clip_state_dict s) = None.
+Proof. exact (state_dict_holds_no_function s). Qed.
 
 (* the value in force is the one used: after a scheduler wrote noise_multiplier := nm' and max_grad_norm := c'
    (what scheduler.step() does to the optimizer), the next optimizer step -- in the code generated from
@@ -153,3 +158,4 @@ Print Assumptions C17_restore_exact_partial.
 Print Assumptions C17_clip_restore_exact_partial.
 Print Assumptions C17_lambda_restore_next.
 Print Assumptions C17_clip_lambda_restore_next.
+Print Assumptions C17_state_dict_holds_no_function.
